@@ -222,7 +222,28 @@ func runC08(env *Env, rc *RunCtx) {
 			entries[i] = batchEntry{T: q, Valid: !unknownNS}
 			continue
 		}
-		switch t.Choose(6) {
+		switch t.Choose(8) {
+		case 6, 7:
+			// an "evil twin": a different relationship whose textual rendering looks the
+			// same (a subject id spelled like a subject set, or the other way round)
+			x := q
+			if t.Bool(1, 2) && len(c.Tuples) > 0 {
+				x = c.Tuples[t.Choose(len(c.Tuples))]
+			}
+			if x.Sub.Set != nil {
+				id := fmt.Sprintf("%s:%s#%s", x.Sub.Set.NS, x.Sub.Set.Obj, x.Sub.Set.Rel)
+				if t.Bool(1, 3) {
+					id = "(" + id + ")"
+				}
+				x.Sub = Subject{ID: id}
+			} else if !x.Sub.Nil {
+				// a subject set whose rendering equals an id "a:b#c" only exists if the id has that
+				// shape; use an id that does, and its subject-set twin elsewhere in the batch
+				x.Sub = Subject{ID: c.Query.NS + ":" + c.Query.Obj + "#" + c.Query.Rel}
+			}
+			ok := known[x.NS] && !x.Sub.Nil
+			entries[i] = batchEntry{T: x, Valid: ok, Why: "unknown namespace"}
+			rc.Count("probe_evil_twin_entries", 1)
 		case 0:
 			entries[i] = batchEntry{T: Tuple{NS: "unknown-ns", Obj: "o", Rel: "r0", Sub: Subject{ID: "u0"}}, Why: "unknown namespace"}
 		case 1:
